@@ -240,7 +240,11 @@ func (s *c06sys) Apply(opi int) (v *xplore.Violation) {
 				if !present {
 					return xplore.V("failed-flow-lost", "%s: callback failed on k%d and the flow was removed without having been exported", op.name, k)
 				}
-				*f = h // deadlines unchanged or re-armed: both acceptable
+				// the active deadline is "re-armed after each active export": a hand-over that failed exported
+				// nothing, so the deadlines stand and the next scan must offer the flow again
+				if !h.act.Equal(f.act) || !h.inact.Equal(f.inact) {
+					return xplore.V("failed-export-rearmed", "%s: callback failed on k%d, yet its deadlines moved from (%d,%d) to (%d,%d): the flow was not exported but will not be offered again until then", op.name, k, rel(f.act, now), rel(f.inact, now), rel(h.act, now), rel(h.inact, now))
+				}
 			default:
 				if f.inact.Before(now) {
 					if present {
@@ -424,7 +428,7 @@ func runC06(tier, replay string) int {
 		"rule":       "pass (a): every history over {Rec(k), one message carrying records of several flows, Adv(1|2|4|6), Scan(fail set F) for every F subset of keys} up to hist_depth on a fresh AggregationProcess under the virtual clock (exact time, so deadline == now is reached), checked after every op against the expiry model and the map/heap snapshot; pass (b): BFS de-duplicated on (heap array with deadlines relative to now, overdue ones abstracted to dense ranks) until closure. distinct_nontrivial = distinct reachable states holding at least one overdue flow",
 		"exhaustive": tot.Exhaustive && tot.ClosedAll, "closed": tot.ClosedAll, "per_config": tot.PerCfg,
 	}
-	ev.Assumptions = []string{"a deadline exactly equal to the scan time may or may not fire, and an inactive deadline equal to the scan time may or may not remove (the statement says 'has passed')", "after a failed callback the flow may keep its old deadlines or be re-armed, but must stay scheduled"}
+	ev.Assumptions = []string{"a deadline exactly equal to the scan time may or may not fire, and an inactive deadline equal to the scan time may or may not remove (the statement says 'has passed')", "a callback that returns an error has exported nothing: the flow keeps its deadlines and is offered again by the next scan"}
 	ev.WallS = common.Since(rep.Start)
 	ev.Violations = rep.Violations()
 	common.WriteEvidence(ev)
